@@ -112,16 +112,12 @@ def _c18():
     ]
     m2 = [
         ("c18_m2_term1_term3_valid", "terminator(depth 1) + terminator(depth 3), claimed depths (1, 3), 1 sibling (first may be a prefix of the second)"),
-        ("c18_m2_term1_term3_d0", "terminator(1) + terminator(3), claimed depths (0, 3), 1 sibling"),
-        ("c18_m2_term2_leaf_deep", "terminator(2) + leaf, claimed depths (2, 257), 1 sibling"),
-        ("c18_m2_2leaf_max", "2 leaves, claimed depths (usize::MAX, 2), 2 siblings"),
         ("c18_m2_2leaf_valid", "2 leaves, claimed depths (2, 2), 2 siblings"),
         ("c18_m2_leaf_term_short_sibs", "leaf + terminator(2), claimed depths (3, 2), 0 siblings"),
-        ("c18_m3_mixed", "terminator(2) + leaf + terminator(3), claimed depths (2, 3, 3), 2 siblings"),
     ]
     for h, d in m2:
         obl.append(K("c18_multi::" + h, tier="thorough", unwind=10, classes="multi3" if "m3" in h else "multi2",
-                     timeout_s=5400, mem_gb=40, memsafe=False, kani_args=["-Z", "stubbing"],
+                     timeout_s=3000, mem_gb=40, limit_gb=52, memsafe=False, kani_args=["-Z", "stubbing"],
                      allow_unsat=["in-scope query", "some multi-proof verifies"],
                      desc="verify_multi_proof never panics: " + d,
                      bounds="shape: " + d + "; claimed depths concrete, key bits symbolic in a 4-bit window (adjacent leaf keys distinct), "
@@ -204,8 +200,7 @@ def _c05():
 
 
 def _c02():
-    names = ["e", "s1", "s2d0", "s2d1", "s2d1r", "s2d2", ("s3a", "thorough"), ("s3b", "thorough"), ("s3c", "thorough"),
-             ("s4a", "thorough"), ("s4b", "thorough")]
+    names = ["e", "s1", "s2d0", "s2d1", "s2d1r", "s2d2", ("s3a", "thorough"), ("s3b", "thorough"), ("s3c", "thorough")]
     bt = _family("c02_bt_", "c02", names,
                  "build_trie(0, sorted pairs) == spec_root(S); root visited last; visitor up/down stream replays on a "
                  "TriePosition without panic, each leaf written at a prefix of its key, ends at the sub-trie root",
@@ -215,7 +210,7 @@ def _c02():
                  unwind=12, classes="func", timeout_s=1500, mem_gb=5, memsafe=False)
     for o in bt:
         if o["tier"] == "thorough":
-            o.update(mem_gb=20, timeout_s=7200)
+            o.update(mem_gb=20, limit_gb=40, timeout_s=3600)
     vc = [K("c02::c02_vc_" + n, tier=t, unwind=12, classes="func", timeout_s=3600, mem_gb=16, memsafe=False,
             desc="build_trie's visitor (up, down) stream replayed on a TriePosition never panics, writes each leaf at a prefix "
                  "of its key and ends at the sub-trie root [" + n + "]", bounds=SHAPE_BOUNDS % 8,
